@@ -61,22 +61,65 @@ REPRESENTATIVES = {
 }
 
 
-def _share_bomb(levels: int, leaf: bytes) -> bytes:
+def _wide_tag(tag: int, width: int, value) -> cborr.Raw:
+    """A tag whose number is written in a legal but longer than necessary head (width 2, 4 or 8 bytes)."""
+    head = {2: b"\xd9" + tag.to_bytes(2, "big"), 4: b"\xda" + tag.to_bytes(4, "big"), 8: b"\xdb" + tag.to_bytes(8, "big")}[width]
+    return cborr.Raw(head + cborr.enc(value))
+
+
+def _share_bomb(levels: int, leaf: bytes, width: int = 0, ref_index_width: int = 0) -> bytes:
     """CBOR value sharing (tags 28 / 29): `levels` arrays, each holding two references to the one before.  A few
-    bytes per level on the wire; 2^levels copies of the leaf once anything re-encodes the decoded value."""
-    items = [cborr.Tag(28, [cborr.Raw(leaf)])]
+    bytes per level on the wire; 2^levels copies of the leaf once anything re-encodes the decoded value.
+    width: write the tag numbers in a non-shortest head; ref_index_width: the same for the reference indexes."""
+    mk = (lambda t, v: _wide_tag(t, width, v)) if width else cborr.Tag
+    idx = (lambda i: cborr.Raw(bytes([0x18 + {1: 0, 2: 1, 4: 2, 8: 3}[ref_index_width]]) + i.to_bytes(ref_index_width, "big"))) \
+        if ref_index_width else (lambda i: i)
+    items = [mk(28, [cborr.Raw(leaf)])]
     for i in range(1, levels):
-        items.append(cborr.Tag(28, [cborr.Tag(29, i - 1), cborr.Tag(29, i - 1)]))
+        items.append(mk(28, [mk(29, idx(i - 1)), mk(29, idx(i - 1))]))
     return cborr.enc(items)
 
 
 REPRESENTATIVES.update({
     "shared_pair": cborr.enc([cborr.Tag(28, [1, 2]), cborr.Tag(29, 0)]),
     "shared_bomb_containers": _share_bomb(17, b"\x70" + b"A" * 16),
+    # the same with the tag numbers / reference indexes in legal, longer than necessary heads
+    "shared_bomb_tag_head2": _share_bomb(17, b"\x70" + b"A" * 16, width=2),
+    "shared_bomb_tag_head4": _share_bomb(17, b"\x70" + b"A" * 16, width=4),
+    "shared_bomb_tag_head8": _share_bomb(17, b"\x70" + b"A" * 16, width=8),
+    "shared_bomb_index_head2": _share_bomb(17, b"\x70" + b"A" * 16, ref_index_width=2),
+    "shared_pair_tag_head2": cborr.enc([_wide_tag(28, 2, [1, 2]), _wide_tag(29, 2, 0)]),
     # one long string referenced many times: expansion is linear per reference, i.e. quadratic in the input
     "shared_long_string": cborr.enc([cborr.Tag(28, "S" * 3000)] + [cborr.Tag(29, 0)] * 1500),
     "tag28_unused": cborr.enc(cborr.Tag(28, [0])),
     "tag29_dangling": cborr.enc(cborr.Tag(29, 5)),
+    # tags the CBOR library turns into other Python types (dates, decimals, sets, patterns, addresses, messages):
+    # whatever the parser does with such a value it must end in one of the declared exceptions
+    "tag_datetime_text": b"\xc0\x74" + b"2020-01-01T00:00:00Z",
+    "tag_datetime_epoch": b"\xc1\x1a\x5f\x00\x00\x00",
+    "tag_decimal": b"\xc4\x82\x21\x19\x6a\xb3",
+    "tag_bigfloat": b"\xc5\x82\x21\x03",
+    "tag_rational": b"\xd8\x1e\x82\x01\x03",
+    "tag_regex": b"\xd8\x23\x62a+",
+    "tag_mime": b"\xd8\x24\x78\x1aContent-Type: text/plain\n\nx",
+    "tag_uuid": b"\xd8\x25\x50" + bytes(16),
+    "tag_set": b"\xd9\x01\x02\x82\x01\x02",
+    "tag_set_of_map": b"\xd9\x01\x02\x81\xa0",
+    "tag_ipaddress": b"\xd9\x01\x04\x44\x7f\x00\x00\x01",
+    "tag_ipnetwork": b"\xd9\x01\x05\xa1\x44\x7f\x00\x00\x00\x18\x18",
+    "tag_selfdescribe": b"\xd9\xd9\xf7\x01",
+    "tag_date_days": b"\xd8\x64\x19\x10\x00",
+    "tag_complex": b"\xd9\xa7\xf8\x82\x01\x02",
+    "tag_negbignum": b"\xc3\x41\x00",
+    "tag_bignum_4096": b"\xc2\x59\x10\x00" + b"\xff" * 4096,
+    "map_key_array": b"\xa1\x81\x01\x02",
+    "map_key_map": b"\xa1\xa0\x02",
+    "map_key_duplicate": b"\xa2\x01\x02\x01\x03",
+    "map_key_nan_twice": b"\xa2\xf9\x7e\x00\x01\xf9\x7e\x00\x02",
+    "arr_declared_2_63": b"\x9b\x7f\xff\xff\xff\xff\xff\xff\xff",
+    "map_declared_2_63": b"\xbb\x7f\xff\xff\xff\xff\xff\xff\xff",
+    "bstr_declared_2_63": b"\x5b\x7f\xff\xff\xff\xff\xff\xff\xff",
+    "tstr_declared_2_31": b"\x7a\x7f\xff\xff\xff",
 })
 REP_NAMES = sorted(REPRESENTATIVES)
 
